@@ -405,6 +405,9 @@ type vfDB struct {
 	pool      *TempPool
 	cachesize int
 
+	// wbuf > 0: goleveldb write buffer of this handle (default: vfStorageOptions, 64 KiB)
+	wbuf int
+
 	// writercache > 0: state cache size of the block writers (default: cachesize); seqstates: the states of a
 	// block are set one by one (SetStates of several states uses parallel workers: with a cache smaller than the
 	// block the surviving entries would be a matter of scheduling); permbatch > 0: LeveldbPermanent.batchlimit
@@ -434,7 +437,12 @@ func (env *vfEnv) newDB(cachesize int) *vfDB {
 }
 
 func (db *vfDB) open() {
-	st, err := leveldbstorage.NewStorage(db.raw, vfStorageOptions())
+	opts := vfStorageOptions()
+	if db.wbuf > 0 {
+		opts.WriteBuffer = db.wbuf
+	}
+
+	st, err := leveldbstorage.NewStorage(db.raw, opts)
 	vfMust(err)
 
 	db.st = st
